@@ -5,6 +5,7 @@ T: for every public indicator with a `sequential` parameter and every returned f
    returns on growing prefixes of several candle series are logged as integers and TLC (TraceCausal.tla) decides
    whether each longer run extends the shorter one.  No model of the numerics: the level is `exploration`."""
 import contextlib, io, json, math, random
+import numpy as np
 from .. import tlc
 from ..core import Machinery
 from ..drivers import indicators as D
@@ -133,9 +134,22 @@ def plan(ctx, cat):
         if not e["sequential"]:
             continue
         vs = D.variants(e, rng, nvar, sweep=not ctx.quick)
+        nrand = len(vs)
+        # the smallest window lengths (1, 2, 3) for every period-like parameter; values an indicator rejects raise -> skipped
+        seen = {tuple(sorted(v.items())) for v in vs}
+        for b in D.boundary_variants(e):
+            if tuple(sorted(b.items())) not in seen:
+                seen.add(tuple(sorted(b.items())))
+                vs.append(b)
         sp = list(specs)
         pre = [PREFIXES for _ in specs]
-        nv = [len(vs)] * len(specs)
+        nv = [len(vs) if i < ctx.pick(2, len(specs)) else nrand for i in range(len(specs))]
+        # flat stretches (open = high = low = close for 15-40 candles) embedded between moving parts, cut inside, at the
+        # end of and just after every stretch
+        for ps in ctx.pick([1], [1, 2, 3]):
+            sp.append(("plateau", 300, ps))
+            pre.append(D.plateau_cuts(300, ps, full=not ctx.quick))
+            nv.append(len(vs))
         # one long series: closed-form kernels whose powers overflow make EARLY values depend on the input length
         sp.append(LONG)
         pre.append(LONG_PREFIXES)
@@ -166,25 +180,58 @@ def judge(ctx, traces, parts, first_id=1):
     return verdicts, results
 
 
+def alt_future(sp, short, long_):
+    """candles that share the first `short` rows with the series and continue differently up to `long_` rows"""
+    c = D.build_series(sp)[:long_].copy()
+    other = D.build_series((("trend" if sp[0] != "trend" else "random"), sp[1], sp[2] + 7777) + tuple(sp[3:]))[:long_]
+    shift = c[short - 1, 2] - other[short - 1, 2]
+    c[short:, 1:5] = np.maximum(other[short:, 1:5] + shift, 1.0) if sp[0] != "real" else other[short:, 1:5] * (c[short - 1, 2] / other[short - 1, 2])
+    c[short:, 5] = other[short:, 5]
+    return c
+
+
 def twin_job(item):
-    """re-record rejected cases of one indicator on the jittered twins of their series (same shape, no exact ties)"""
+    """two confirmations for every rejected case of one indicator:
+    (a) the same case on the jittered twin of the series (same shape, no exact ties between candles);
+    (b) the same input length with a DIFFERENT future: the run on the candles up to the failing length against the run on
+        candles that share the shorter prefix and continue differently - equal array shapes, so last-bit effects of
+        vectorised kernels cancel, while a dependence on later candles shows on the shared positions."""
     entry, cases = item
     out = []
     stats = {"calls": 0, "skipped": 0, "not_series": set(), "exc": {}}
     with contextlib.redirect_stdout(io.StringIO()):
-        for kw, sp, prefixes, field in cases:
+        for kw, sp, prefixes, field, short, long_ in cases:
             spj = tuple(sp[:3]) + ((sp[3] if len(sp) > 3 else 1.0), "jitter")
             c = D.build_series(spj)
             c2 = D.build_series((spj[0], spj[1], spj[2] + 1000) + tuple(spj[3:]))
             try:
-                out.append(record(entry, kw, spj, prefixes, c, c2, D.pscale_of(c), stats, only_field=field))
+                a = record(entry, kw, spj, prefixes, c, c2, D.pscale_of(c), stats, only_field=field)
             except Exception:
-                out.append(None)
+                a = None
+            b = None
+            try:
+                co = D.build_series(sp)[:long_]
+                ca = alt_future(sp, short, long_)
+                c2o = D.build_series((sp[0], sp[1], sp[2] + 1000) + tuple(sp[3:]))[:long_]
+                ro = dict(D.fields_of(D.call(entry, co, c2o, kw, True)))[field]
+                ra = dict(D.fields_of(D.call(entry, ca, c2o, kw, True)))[field]
+                so, sa = D.as_list(ro), D.as_list(ra)
+                kind = "str" if D.kind_of(so) == "str" or D.kind_of(sa) == "str" else "num"
+                unit = D.scale_of(so, D.pscale_of(co)) * 1e-6
+                exempt = int(kw.get("order", entry["params"].get("order", 0))) if entry["name"] == "minmax" else 0
+                b = [{"hdr": {"ind": entry["name"], "field": field, "kind": kind, "exempt": exempt, "params": params_key(kw),
+                              "series": list(sp), "finite": 0},
+                      "ev": [{"len": short, "out": D.enc_series(sa, kind, unit)}, {"len": long_, "out": D.enc_series(so, kind, unit)}],
+                      "kw": kw}]
+            except Exception:
+                b = None
+            out.append((a, b))
     return out
 
 
 def confirm_and_report(ctx, cat, traces, verdicts):
-    """A rejected trace is reported when TLC also rejects the same case on the jittered twin series.  On integer-lattice
+    """A rejected trace is reported when TLC also rejects one of its two confirmation traces (twin_job): the same case on
+    the jittered twin series, or the failing input length with a different future.  On integer-lattice
     (and exactly periodic) inputs, discontinuous indicators (flags, adaptive periods) decide exact ties by the last bit of
     a float, and that bit legitimately differs between vectorised runs of different length; a look-ahead, a global
     normaliser or a wrap-around survives a 1e-6 jitter of the input, a last-bit tie does not."""
@@ -194,22 +241,25 @@ def confirm_and_report(ctx, cat, traces, verdicts):
     for t in rejected:
         groups.setdefault(t["hdr"]["ind"], []).append(t)
     names = sorted(groups)
-    items = [(by_name[n], [(t["kw"], tuple(t["hdr"]["series"]), [e["len"] for e in t["ev"]], t["hdr"]["field"])
+    def failing_pair(t):
+        l = verdicts[t["id"]][0]
+        return t["ev"][max(l - 2, 0)]["len"], t["ev"][l - 1]["len"]
+    items = [(by_name[n], [(t["kw"], tuple(t["hdr"]["series"]), [e["len"] for e in t["ev"]], t["hdr"]["field"]) + failing_pair(t)
                            for t in groups[n]]) for n in names]
     twins = D.pmap(twin_job, items) if items else []
     twin_traces, owner = [], {}
     for n, r in zip(names, twins):
         if isinstance(r, tuple) and r and r[0] in ("EXC", "CRASH"):
             continue
-        for t, xs in zip(groups[n], r):
-            for x in (xs or []):
+        for t, (xa, xb) in zip(groups[n], r):
+            for x in (xa or []) + (xb or []):
                 owner[len(twin_traces)] = t["id"]
                 twin_traces.append(x)
     confirmed = {}
     if twin_traces:
         v2, _ = judge(ctx, twin_traces, parts=min(16, len(twin_traces)), first_id=len(traces) + 1)
-        for i, x in enumerate(twin_traces):
-            confirmed[owner[i]] = v2[x["id"]][1] != "ok"
+        for i, x in enumerate(twin_traces):          # confirmed when EITHER confirmation trace is rejected as well
+            confirmed[owner[i]] = confirmed.get(owner[i], False) or v2[x["id"]][1] != "ok"
     bad, ties = 0, []
     for t in rejected:
         l, v = verdicts[t["id"]]
@@ -294,8 +344,9 @@ def run(ctx):
         "max(|finite values of the longest run|, 1e-6 x max close); NaN, +inf and -inf only equal themselves",
         "an indicator that raises on a (short) input is skipped for that length",
         "the second candle array of beta/rsmk is an independent series cut to the same prefix",
-        "a rejected trace is reported only when TLC also rejects the same case on the jittered twin of the series (every "
-        "price and volume multiplied by 1 + 1e-6 u): exact ties on lattice / periodic inputs are decided by the last bit of a "
+        "a rejected trace is reported only when TLC also rejects a confirmation trace of the same case: on the jittered twin of "
+        "the series (every price and volume multiplied by 1 + 1e-6 u), or at the failing input length against candles that "
+        "share the shorter prefix and continue differently (equal array shapes): exact ties on lattice / periodic inputs are decided by the last bit of a "
         "float, which differs between vectorised runs of different length (seen: hull_suit.signal on an alternating series, "
         "vlma with the smma selector on a lattice trend); structural look-ahead survives the jitter"]
 
